@@ -49,7 +49,7 @@ PROPS = {
     ),
 }
 
-PROBES = {'C18': ['solver_paused_nonempty', 'two_pausers', 'notify_no_waiter',
+PROBES = {'C18': ['solver_paused_nonempty', 'two_pausers', 'notify_no_waiter', 'interface_threads_with_equal_names',
                   'queued_while_paused', 'get_result_before_exec', 'get_result_after_exec',
                   'queue_nonempty_at_cp_entry', 'cont_while_solver_between_cps',
                   'wait_returned', 'cli_frontend_runs', 'drain_phase_needed', 'real_solver_loop']}
@@ -124,10 +124,13 @@ def gen(t, prop, tier):
     if t.bool(0.25):
         a = t.int(1, 80)
         policy['starve'] = {'tid': t.int(0, n_iface), 'from': a, 'to': a + t.int(5, 60)}
-    return dict(programs=programs, policy_kind=kind, policy=policy,
-                sched=[t.int(0, 5) for _ in range(t.choice([40, 120, 300]))],
-                max_cp=t.choice([6, 12, 25]), spurious=0, comm_yield=1 if t.bool(0.5) else 0,
-                real_solver=1 if t.bool(0.3) else 0, command_interval=t.choice([1, 1, 2, 3]))
+    sc = dict(programs=programs, policy_kind=kind, policy=policy,
+              sched=[t.int(0, 5) for _ in range(t.choice([40, 120, 300]))],
+              max_cp=t.choice([6, 12, 25]), spurious=0, comm_yield=1 if t.bool(0.5) else 0,
+              real_solver=1 if t.bool(0.3) else 0, command_interval=t.choice([1, 1, 2, 3]))
+    # interface threads created by the user with one and the same name (thread names need not be unique)
+    sc['same_names'] = 1 if (n_iface > 1 and t.bool(0.25)) else 0
+    return sc
 
 
 def _gen_cli(t, regime):
@@ -490,7 +493,7 @@ def execute(sc, prop):
                 spin += 1
             cp_state['drain'] += 1
             if cp_state['drain'] > cp_state['drain_budget'] and not all(h.iface_done):
-                stuck = [t.name + ' on ' + repr(t.blocked_on) for t in h.iface_threads if t.state == st.BLOCKED]
+                stuck = [getattr(t, 'label', t.name) + ' on ' + repr(t.blocked_on) for t in h.iface_threads if t.state == st.BLOCKED]
                 h.violate('no-progress-under-fair-schedule',
                           'after %d further control points under a fair schedule interface thread(s) are still blocked: %s'
                           % (cp_state['drain'], '; '.join(stuck)))
@@ -563,7 +566,10 @@ def execute(sc, prop):
     solver_thread.start()
     for idx, prog in enumerate(programs):
         thr = cm.add_interface(make_iface(idx, prog), block=True)
-        thr.name = 'iface%d' % idx
+        thr.label = 'iface%d' % idx          # what the reports of this harness call the thread
+        thr.name = 'viewer' if sc.get('same_names') else thr.label
+        if sc.get('same_names') and idx == 1:
+            h.probe('interface_threads_with_equal_names')
         h.iface_threads.append(thr)
     if cli_mode:
         h.probe('cli_frontend_runs')
@@ -572,7 +578,7 @@ def execute(sc, prop):
 
     inconclusive = False
     if outcome == 'deadlock':
-        pat = '|'.join('%s@%s' % (t.name, getattr(t.blocked_on, 'label', None) or 'tasklock')
+        pat = '|'.join('%s@%s' % (getattr(t, 'label', t.name), getattr(t.blocked_on, 'label', None) or 'tasklock')
                        for t in S.threads if t.state in (st.BLOCKED, st.TIMED))
         h.violations.insert(0, dict(invariant='deadlock', detail='no runnable thread: ' + S.blocked_report(),
                                     sig=dict(pattern=pat), **{'class': 'deadlock ' + pat}))
